@@ -11,6 +11,7 @@ import gen_mdp
 
 INFO = {
     "level": "proof",
+    "coq_files": ["model/VI.v"],
     "trusted_base": [
         "model/VI.v c01_check is evaluated on Q (NumQ); theorems are on R; tied by paramcoq transfer (theory/VITransfer.v)",
         "generated parameters (gamma, probabilities, rewards) reach the model exactly and msdm as nearest doubles",
